@@ -35,6 +35,14 @@ Calls ==
   \cup {[op |-> "insertMany", a |-> [docs |-> <<d1, d2>>, ordered |-> ord, gen |-> Missing]] : d1 \in {D(<< <<"_id", I32(1)>>, <<"a", I32(1)>> >>), D(<< <<"_id", I32(2)>>, <<"a", I32(2)>> >>)},
                                                                                                 d2 \in {D(<< <<"_id", I64(1)>>, <<"a", I32(2)>> >>), D(<< <<"_id", I32(2)>>, <<"a", I64(1)>> >>)}, ord \in BOOLEAN}
   \cup {[op |-> "createIndex", a |-> UniqA], [op |-> "dropIndex", a |-> [name |-> "a_1"]], [op |-> "dropIndex", a |-> [name |-> "_id_"]], [op |-> "drop", a |-> <<>>]}
+  \* upserts whose filter fixes the _id (no generated id), find-and-modify with both images, drop by key, several indexes at once
+  \cup {[op |-> "updateOne", a |-> [q |-> D(<< <<"_id", i>> >>), upd |-> u, upsert |-> TRUE, afs |-> <<>>, gen |-> Missing]] :
+           i \in {I32(1), I32(2)}, u \in {D(<< <<"$set", D(<< <<"a", I32(1)>> >>)>> >>), D(<< <<"$inc", D(<< <<"a", I32(1)>> >>)>> >>)}}
+  \cup {[op |-> "findOneAndUpdate", a |-> [q |-> c[1], upd |-> D(<< <<"$inc", D(<< <<"a", I32(1)>> >>)>> >>), sort |-> EmptyDoc, proj |-> Missing, upsert |-> c[2], after |-> af,
+                                           afs |-> <<>>, gen |-> Missing]] :
+           c \in {<<D(<< <<"_id", I32(1)>> >>), TRUE>>, <<D(<< <<"_id", I32(1)>> >>), FALSE>>, <<D(<<>>), FALSE>>}, af \in BOOLEAN}
+  \cup {[op |-> "dropIndexByKey", a |-> [key |-> D(<< <<"a", I32(1)>> >>)]], [op |-> "dropIndexByKey", a |-> [key |-> D(<< <<"_id", I32(1)>> >>)]]}
+  \cup {[op |-> "createIndexes", a |-> [specs |-> <<UniqA, [key |-> D(<< <<"b", I32(1)>> >>), name |-> "", unique |-> FALSE, partial |-> Missing, exp |-> -1]>>]]}
 
 VARIABLES db, n, last
 vars == <<db, n, last>>
